@@ -31,4 +31,8 @@ CLAIMED = {
   technique="TLA+ heap model (Alloc.tla: break, address-ordered free list, exact/best-fit/split/extend malloc, coalescing free, four-case realloc) model-checked by TLC for the tiling invariant; state-graph edge cover replayed on lin_malloc/lin_realloc; traces validated by a monitor (arena, alignment, disjointness, contents, restored break) and compared address-by-address with the model; pool monitor + LIFO model",
   text="TLC checks over all alloc/free/realloc histories of 3 blocks (4 thorough) x request classes {0,64,128} within a bounded break that live and free chunks always tile [heap start, break) - no overlap, nothing lost, free list ordered and coalesced, all freed => initial break. Every edge is replayed on the real heap, random scripts add sizes around the header/rounding boundaries with LIFO/FIFO/random free order; TLC judges every event with the property monitor and compares the returned address, break and free list with the model (0 drift = the model is the code). Pools (pool_head, igris::pool, static_object_pool) are judged for exact capacity, reuse, free count, cell_is_allocated and guards.",
   note=NOTE),
+ "C20": dict(
+  technique="TLA+ model of the lock / wait-queue / event / semaphore protocol (SysSync.tla) with every interleaving of small closed programs checked by TLC (safety invariants + no-lost-wakeup liveness under weak fairness); executions of real threads recorded at guarded hook points and validated step by step by the trace specification; ThreadSanitizer run for data races",
+  text="TLC enumerates all schedules of 3-4 threads at the granularity of synchronisation operations for five program configurations: mutual exclusion and re-entrancy of the system lock, save/restore, wake order, exactly-one wake, no spurious return, no lost wake-up (liveness), no touch of a waiter's event after the waiter destroyed it (the model rejects the former notify-after-unlock order), safe_queue order. The same effect operators judge hook-recorded executions of random closed programs on real threads with seeded preemption at every hook; data races are observed by ThreadSanitizer.",
+  note=NOTE + " Hooks: IGRIS_VERIF_POINT in syslock_mutex.cpp, wait.cpp, wait-linux.cpp, syncxx/event.h, event/safe_queue.h (guard IGRIS_VERIF)."),
 }
